@@ -39,27 +39,31 @@ func (t *TransactionBase) Done() <-chan struct{} {
 func (t *TransactionBase) Success() {
 	t.mutex.Lock()
 	defer t.mutex.Unlock()
-
-	t.finish()
+	t.finish(nil)
 }
 
+// finish completes the transaction with the given result. Only the first
+// completion counts: the result of a finished transaction never changes and the
+// finally callback is called exactly once.
+//
 // You must acquire write lock on t.mutex before calling this function!
-func (t *TransactionBase) finish() {
+func (t *TransactionBase) finish(e error) {
+	select {
+	case <-t.done:
+		return
+	default:
+	}
+	t.err = e
 	if t.finally != nil {
 		t.finally()
 	}
-	select {
-	case <-t.done:
-	default:
-		close(t.done)
-	}
+	close(t.done)
 }
 
 // Transaction.Err() implementation.
 func (t *TransactionBase) Err() error {
 	t.mutex.RLock()
 	defer t.mutex.RUnlock()
-
 	return t.err
 }
 
@@ -67,7 +71,5 @@ func (t *TransactionBase) Err() error {
 func (t *TransactionBase) Fail(e error) {
 	t.mutex.Lock()
 	defer t.mutex.Unlock()
-
-	t.err = e
-	t.finish()
+	t.finish(e)
 }
